@@ -175,7 +175,10 @@ def safe_urljoin(base_url, url):
     if url_is_absolute(url):
         return iri_to_uri(url)
     elif base_url:
-        return iri_to_uri(urljoin(base_url, url))
+        try:
+            return iri_to_uri(urljoin(base_url, url))
+        except ValueError as exception:
+            raise InvalidValues(f'Invalid URI reference: {url!r} ({exception})')
     else:
         raise InvalidValues(
             f'Relative URI reference without a base URI: {url!r}')
